@@ -138,6 +138,14 @@ def region_obligations(ix, R):
     labels = {l for _, l, _ in forms}
     need = {'PMAX', 'TMAX', 'PMIN', 'TMIN'}
     if labels != need:
+        if labels < need:
+            # a bound that no exit tests in the right space: that side of the grid is not clamped
+            R.fail('1.region', 'GUARD', site,
+                   'exits are dispatched on all four bound comparisons (P>=Pmax, P<Pmin, T>=Tmax, T<Tmin) in the space of the stored bounds',
+                   key='missing ' + ','.join(sorted(need - labels)),
+                   detail='no exit is guarded by a well-formed comparison for %s (found only %s): values beyond that bound '
+                   'are extrapolated, not held at the edge' % (sorted(need - labels), sorted(labels)), loc=f.loc())
+            return
         raise AnalysisError('region guards cover %s, expected the four bound comparisons' %
                             sorted(labels))
     reg = Reg(fl.tab, forms)
